@@ -32,7 +32,8 @@ class GlueEngine:
         u = {
             "__CPROVER_file_local_assemblyline_c_asm_build_index_tables.0": n,
             "__CPROVER_file_local_assemblyline_c_asm_build_index_tables.1": m,
-            "nop_padding.0": 17,
+            # inner copy loop (<= 11 bytes per NOP) / outer loop over NOPs of one padding run
+            "nop_padding.0": 13, "nop_padding.1": 4,
             "glue_fill.0": 600,
         }
         u.update(extra or {})
